@@ -356,6 +356,14 @@ func C04(c *core.Ctx) {
 	c.Extra["decoded_slice_const_index_sinks"] = nConst
 	c.Floor("R4.6", "constant / last-element indices into decoded slices", nConstDecided, 2)
 
+	// ---- R4.7 optional elements of a decoded message are dereferenced only where they were
+	// found present: in the function, through the presence of a coupled element, or at
+	// every call site (static and through interfaces, up to four levels) of the function
+	reportOptionalDerefs(c, "R4.7", []string{"fw/fw", "fw/face", "fw/dispatch", "fw/table"}, map[string]string{
+		"fw/face.InternalTransport.Receive:Packet.LpPacket":         "frames on the internal transport's queue are produced by this forwarder's own NDNLP link service, which always wraps in an LpPacket (C17 R17.5 checks the producing side)",
+		"fw/face.InternalTransport.Receive:LpPacket.IncomingFaceId": "the internal face is created with incoming-face indication enabled and every OutPkt of the forwarder names its incoming face (C17 R17.5 checks both)",
+	}, 40, "a packet that omits the element makes the forwarder's receive path panic (nil pointer dereference)")
+
 	// ---- R4.5 stream framing makes progress: the compaction test and the "too much data"
 	// test on the number of pending bytes leave no value for which the buffer is neither
 	// compacted nor the stream rejected (one-sided comparison contradiction)
